@@ -136,6 +136,14 @@ CHECKS = {
         note="Partial: `H_neutral` (evaluator state is neutral at a top-level statement boundary) is assumed for the concatenation equality and only exercised end-to-end.",
         technique="Lean 4 proof over the round-loop model + regenerated main.go facts + end-to-end preload/concatenation comparison",
     ),
+    "C24": dict(
+        category="proof",
+        text="Recording model: the call-point log is a function of the schedule of call-expression evaluations (round, look-ahead copy or real). Lean proves that for EVERY schedule in which each call site is evaluated for real exactly once in the check round — with any number of evaluations in other rounds or on look-ahead copies, in any interleaving — the log has exactly one entry per call site carrying its row and enclosing method/class, so `total callers` equals the number of call sites. "
+             "The recording guard (check round, not a look-ahead copy, single writer) and the marking of the copy are re-extracted from the source each run. End-to-end: generated programs with known call sites (conditions of if/elsif/unless/postfix if/while, ternaries, arguments, blocks) vs `--llm-nav --target` for every user method.",
+        design="DESIGN.md §4 C24",
+        note="Partial: which evaluations the evaluator performs is not modelled (end-to-end only). Limitation: calls via `self.` and calls of top-level methods from inside class bodies are keyed differently and not listed (not generated).",
+        technique="Lean 4 proof over evaluation schedules + regenerated source facts + end-to-end call-graph comparison",
+    ),
 }
 
 PENDING_REASON = "check not built yet in this session (see DESIGN.md §4 for the planned Lean model and theorem); not claimed until its check exists"
